@@ -451,6 +451,9 @@ def write_evidence(prop, mod, merged, tier, seed, wall, nviol):
     cov['evaluations'] = int(merged['evals'])
     cov['distinct_nontrivial'] = len(merged['keys'])
     cov['rule'] = mod.RULE
+    if c.get('sequences_from_pristine_state'):
+        cov['rule'] += ('; plus (E5) every ordered pair of the steps of the menu mc/histmenu.py:%s, each pair run in a forked child of an interpreter that has '
+                        'imported the library and called nothing, compared with the second step run alone (%d sequences, each counted as one distinct case)' % (prop, int(c['sequences_from_pristine_state'])))
     cov['samples'] = merged['samples'] or ['<none>']
     cov['exhaustive'] = True
     cov['shards'] = merged['shards']
